@@ -1,5 +1,5 @@
 (* C07 - format conversion.  Model: Model/Convert.v (to_zerv.rs x2, render pipeline) + Model/Render.v. *)
-From ZV Require Import Str Zerv Render Convert ConvertProofs SemVer Pep440 Pep440Nf PepRoundTrip OutputGrammar RegexSrc.
+From ZV Require Import Str Zerv Render Convert ConvertProofs SemVer Pep440 Pep440Nf PepRoundTrip SemVerRoundTrip OutputGrammar RegexSrc.
 From RelationAlgebra Require regex.
 
 (* SemVer -> Zerv always succeeds: the schema pushes of the PreReleaseProcessor never violate the placement rules,
@@ -28,6 +28,28 @@ Proof. exact pep_roundtrip. Qed.
 
 Theorem c07_pep440_roundtrip_test_sound : forall p, pep_nf_b p = true -> pep_of_zerv (zerv_of_pep p) = Some p.
 Proof. exact pep_roundtrip_b. Qed.
+
+(* THE CANONICAL SHAPE  X.Y.Z[-[epoch.E.][alpha|beta|rc.N.][post.P.][dev.D]][+ids]  (every subset of the four parts, every label):
+   SemVer -> Zerv gives the expected object, Zerv -> SemVer gives back exactly the same value (numbers below 2^64) *)
+Theorem c07_canonical_semver_unchanged : forall a b c e pl po pd bl,
+  u64 a -> u64 b -> u64 c -> opt_u64 e -> (match pl with Some (_, n) => u64 n | None => True end) -> opt_u64 po -> opt_u64 pd ->
+  (match bl with Some l => l <> [] /\ Forall ident_nf l | None => True end) ->
+  exists z, zerv_of_semver (canon_semver a b c e pl po pd bl) = Some z /\ semver_of_zerv z = canon_semver a b c e pl po pd bl.
+Proof. exact semver_canonical_roundtrip. Qed.
+
+(* ... to PEP 440 it is  [E!]X.Y.Z[{a|b|rc}N][.postP][.devD][+ids]  (numbers below 2^32) *)
+Theorem c07_canonical_to_pep440 : forall a b c e pl po pd bl,
+  u32 a -> u32 b -> u32 c -> opt_u32_ok e -> (match pl with Some (_, n) => u32 n | None => True end) -> opt_u32_ok po -> opt_u32_ok pd ->
+  (match bl with Some l => l <> [] /\ Forall ident_pep_nf l | None => True end) ->
+  pep_of_zerv (canon_zerv a b c e pl po pd bl) = Some (canon_pep a b c e pl po pd bl).
+Proof. exact canon_to_pep. Qed.
+
+(* ... and from that PEP 440 value back to the original SemVer (an explicit epoch 0 has no PEP 440 counterpart) *)
+Theorem c07_canonical_back_to_semver : forall a b c e pl po pd bl,
+  u64 a -> u64 b -> u64 c -> opt_u64 e -> e <> Some 0%N -> (match pl with Some (_, n) => u64 n | None => True end) -> opt_u64 po -> opt_u64 pd ->
+  (match bl with Some l => l <> [] /\ Forall ident_nf l | None => True end) ->
+  semver_of_zerv (zerv_of_pep (canon_pep a b c e pl po pd bl)) = canon_semver a b c e pl po pd bl.
+Proof. exact pep_back_to_semver. Qed.
 
 (* every rendering that `zerv render` prints is a member of the target grammar (re-convertible) *)
 Theorem c07_render_semver_in_grammar : forall inf pre s t, render_cmd inf FSemver pre s = OOk t ->
@@ -58,3 +80,6 @@ Print Assumptions c07_pep440_roundtrip.
 Print Assumptions c07_pep440_roundtrip_test_sound.
 Print Assumptions c07_render_semver_in_grammar.
 Print Assumptions c07_render_pep440_in_grammar.
+Print Assumptions c07_canonical_semver_unchanged.
+Print Assumptions c07_canonical_to_pep440.
+Print Assumptions c07_canonical_back_to_semver.
